@@ -236,4 +236,60 @@ def coverage (ss : List Stream) (es : List Expect) : Bool :=
 def allAgree (ss : List Stream) (es : List Expect) : Bool :=
   es.all (agree ss) && coverage ss es
 
+/-! ### schema derived from a (guard-free, call-free) token stream — used for the checkpoint types (C23) -/
+
+/-- parse tokens up to the matching `.close` (or the end): the fields, and what follows -/
+def parseToks : Nat → List Tok → List Ty × List Tok
+  | 0, _ => ([.fail], [])
+  | _ + 1, [] => ([], [])
+  | _ + 1, .close :: ts => ([], ts)
+  | f + 1, .varuint :: .loop :: ts =>
+    let (inner, r1) := parseToks f ts
+    let (more, r2) := parseToks f r1
+    (.list 0 none 0 128 (.struct inner) :: more, r2)
+  | f + 1, .raw k :: .loop :: ts =>
+    let (inner, r1) := parseToks f ts
+    let (more, r2) := parseToks f r1
+    (.list k none 0 128 (.struct inner) :: more, r2)
+  | f + 1, t :: ts =>
+    let ty : Ty := match t with
+      | .raw n => .fixed n
+      | .bool => .bool
+      | .varuint => .varUint
+      | .vb m => .varBytes m
+      | .pad1 => .pad1
+      | _ => .fail
+    let (more, r) := parseToks f ts
+    (ty :: more, r)
+
+/-- the schema a reader's token stream denotes; contains `.fail` where the stream has a dynamic
+    dispatch, an unevaluated guard or an unresolved construct -/
+def ofToks (ts : List Tok) : Ty := .struct (parseToks (ts.length + 1) ts).1
+
+mutual
+  def hasFail : Ty → Bool
+    | .fail => true
+    | .struct fs => hasFailFields fs
+    | .list _ _ _ _ e => hasFail e
+    | .tagged _ cs d => hasFailCases cs || hasFail d
+    | _ => false
+  def hasFailFields : List Ty → Bool
+    | [] => false
+    | t :: ts => hasFail t || hasFailFields ts
+  def hasFailCases : List (Nat × Ty) → Bool
+    | [] => false
+    | (_, ty) :: cs => hasFail ty || hasFailCases cs
+end
+
+/-- collapse runs of dynamic tokens (a dispatch switch followed by the dispatched call) -/
+def collapseDyn : List Tok → List Tok
+  | [] => []
+  | t :: ts =>
+    match t, collapseDyn ts with
+    | .dyn _, .dyn b :: rest => .dyn b :: rest
+    | t, r => t :: r
+
+/-- writer and reader of a deep-inlined stream mirror each other -/
+def mirrors (s : Stream) : Bool := decide (erase (collapseDyn s.ser) = erase (collapseDyn s.de))
+
 end ElaVerif.WireTokens
